@@ -38,11 +38,27 @@ impl From<RequestConfig> for TransformConfig {
 
 async fn transform(config: Query<RequestConfig>, input: String) -> impl IntoResponse {
     let Query(config) = config;
-    transform_str(input, &config.into())
+    // The transform is CPU-bound and recursive (element nesting and reuse up to the depth
+    // limit): it gets a thread of its own with the stack of a main thread, not the small
+    // stack of an async worker - which a debug build exhausts well below the default limits.
+    // (Errors cross the thread boundary as their message.)
+    let (tx, rx) = tokio::sync::oneshot::channel();
+    let spawned = std::thread::Builder::new()
+        .stack_size(8 * 1024 * 1024)
+        .spawn(move || {
+            let _ = tx.send(transform_str(input, &config.into()).map_err(|e| e.to_string()));
+        });
+    let result = match spawned {
+        Ok(_) => rx
+            .await
+            .unwrap_or_else(|_| Err("transform did not complete".to_owned())),
+        Err(e) => Err(e.to_string()),
+    };
+    result
         .and_then(|output| {
             if output.is_empty() {
                 // Can't build a valid image/svg+xml response from empty string.
-                Err(SvgdxError::from("Empty response"))
+                Err(SvgdxError::from("Empty response").to_string())
             } else {
                 Ok(output)
             }
